@@ -170,7 +170,7 @@ def run_unit(name, features=None, variant=None, seed=0, canary=True, threads=8):
     for attempt in range(4):
         u = load_unit(name, features, variant, stub_keys)
         text, linemap = u.generate(canary=False)
-        base = u.name.replace("-", "_")
+        base = u.name.replace("-", "_") + ("_s%d" % seed if seed else "")   # one file per (unit, seed): thorough runs seeds in parallel
         path = os.path.join(BUILD, base + ".rs")
         open(path, "w").write(text)
         res = verus(path, seed, threads, extra)
